@@ -251,11 +251,15 @@ pub fn check(thorough: bool, _seed: u64) -> Check {
         phases,
         extra: Default::default(),
         controls: vec![("swapped provenance must be rejected", Box::new(|| {
-            let f = sym_pw(&[1.0, 2.0]);
-            let g = sym_pw(&[1.5]);
-            let r = &f + &g;
-            let got = r.segments[ref_index(&r.segments.iter().map(|s| s.end).collect::<Vec<_>>(), 1.7)].poly;
-            if got == (Sym { l: 1, r: 1 }) { Err("oracle accepts the wrong piece".into()) } else { Ok(()) }
+            // oracle only (never the subject's merge): at x = 1.7 the reference pieces of f = [1,2] and g = [1.5] are 2 and 1,
+            // and the well-formedness predicate rejects a decreasing / foreign / over-long result
+            let (fe, ge) = ([1.0, 2.0], [1.5]);
+            let want = Sym { l: ref_index(&fe, 1.7) as i32 + 1, r: ref_index(&ge, 1.7) as i32 + 1 };
+            if want != (Sym { l: 2, r: 1 }) { return Err("reference indices wrong".into()); }
+            if wellformed(&[2.0, 1.5], &fe, &ge).is_ok() || wellformed(&[1.0, 1.7], &fe, &ge).is_ok() || wellformed(&[1.0, 1.5, 2.0], &fe, &ge).is_ok() || wellformed(&[1.0, 2.0], &fe, &ge).is_err() {
+                return Err("well-formedness predicate is not live".into());
+            }
+            Ok(())
         }))],
     }
 }
